@@ -31,6 +31,11 @@ try:
     res["builds"] = rc == 0
     rc, out = sh("cargo test --offline 2>&1 | grep 'test result'", cwd=wt)
     res["tests"] = out.strip()
+    if "verif_hooks" in json.dumps(meta):
+        # the demonstration drives the REPL through the scripted-line hook (the real prompt needs a terminal)
+        sh("cargo build --offline -q --features verif_hooks", cwd=wt)
+        sh("cargo build --offline -q --features verif_hooks", cwd="/tmp/sc/orig")
+        res["demo_binaries_built_with"] = "--features verif_hooks"
     rc1, o1 = sh(f"bash {os.path.abspath(src)}/demo.sh {wt}/target/debug/p2sh", cwd=os.path.abspath(src), timeout=600)
     rc0, o0 = sh(f"bash {os.path.abspath(src)}/demo.sh /tmp/sc/orig/target/debug/p2sh", cwd=os.path.abspath(src), timeout=600)
     res["demo_on_changed_rc"] = rc1
